@@ -358,9 +358,21 @@ class StmtMixin(CallMixin):
     st_AsyncWith = st_With
 
     # -------------------------------------------------------------------- loops
+    def loop_ordinal(self, node):
+        """Ordinal of a loop within the function under contract, in source order (static: the
+        same loop reached on several paths is the same loop). Inlined callees number separately."""
+        tbl = getattr(self, "_loop_tbl", None)
+        if tbl is None or id(node) not in tbl:
+            root = getattr(self, "_loop_root", None) or self.fnode
+            loops = [n for n in ast.walk(root) if isinstance(n, (ast.For, ast.While, ast.AsyncFor))]
+            loops.sort(key=lambda n: (n.lineno, n.col_offset))
+            tbl = self._loop_tbl = {id(n): i for i, n in enumerate(loops)}
+        if id(node) not in tbl:
+            raise BindingError("loop at line %s is outside the function under contract" % node.lineno)
+        return tbl[id(node)]
+
     def loop_spec(self, node):
-        k = self.loop_ord
-        self.loop_ord += 1
+        k = self.loop_ordinal(node)
         spec = self.c.loops.get(k)
         if spec is None:
             raise BindingError("loop #%d at line %s of %s has no invariant/unroll in its contract"
